@@ -21,7 +21,7 @@ pub fn parse_pair(text: &str) -> Result<Parsed, String> {
 
 pub fn judge(tree: &E, choices: &[u16]) -> Verdict {
     let Some(canon) = render::canonical(tree) else { return Verdict::Skip("tree has no text form") };
-    let mut ch = Stream::new(choices, ALL_LAYOUT);
+    let mut ch = Stream::new(choices, ALL_LAYOUT | Cat::Glue as u32);
     let Some(var) = render::variant(tree, &mut ch) else { return Verdict::Skip("tree has no text form") };
     let base = match parse_pair(&canon) {
         Err(p) => return Verdict::Fail(format!("parse panicked on canonical spelling {canon:?}: {p}")),
@@ -36,11 +36,24 @@ pub fn judge(tree: &E, choices: &[u16]) -> Verdict {
     };
     let got = match parse_pair(&var) {
         Err(p) => return Verdict::Fail(format!("parse panicked on variant {var:?}: {p}")),
+        Ok(Err(_)) if ch.glued => return Verdict::Skip("a spelling without blank next to punctuation was rejected (not asserted either way)"),
         Ok(Err(e)) => return Verdict::Fail(format!("canonical {canon:?} parses but its equivalent spelling {var:?} is rejected: {e}")),
         Ok(Ok(g)) => g,
     };
     if got != base {
         return Verdict::Fail(format!("spellings differ: {canon:?} -> {:?} / {:?} but {var:?} -> {:?} / {:?}", base.0, base.1, got.0, got.1));
+    }
+    // the same expression with other blanks inside its string arguments, parsed right afterwards:
+    // it must give *its own* tree (nothing may be remembered from the previous call)
+    let sib = other_inner_blanks(tree);
+    if &sib != tree {
+        if let Some(st) = render::canonical(&sib) {
+            match parse_pair(&st) {
+                Ok(Ok((_, t))) if t != sib => return Verdict::Fail(format!("after parsing {var:?}, the input {st:?} gives {t:?} instead of {sib:?}")),
+                Err(p) => return Verdict::Fail(format!("parse panicked on {st:?}: {p}")),
+                _ => {}
+            }
+        }
     }
     let tight = ch.used & (Cat::Paren as u32) != 0 && var.contains("(-") || var.contains("((") || var.contains("))");
     let nt = ch.dims() >= 2 || ch.blank_after_bare || tight;
@@ -56,8 +69,39 @@ pub fn judge(tree: &E, choices: &[u16]) -> Verdict {
     Verdict::Pass { nt, class }
 }
 
+/// every string argument that contains a blank gets that blank run changed (space <-> two spaces, tab)
+fn other_inner_blanks(e: &E) -> E {
+    let f = |s: &String| -> String {
+        if s.contains("  ") {
+            s.replace("  ", " ")
+        } else if s.contains(' ') {
+            s.replace(' ', "  ")
+        } else if s.contains('\t') {
+            s.replace('\t', " ")
+        } else {
+            s.clone()
+        }
+    };
+    match e {
+        E::Not(a) => E::not(other_inner_blanks(a)),
+        E::Prec(a) => E::prec(other_inner_blanks(a)),
+        E::And(a, b) => E::and(other_inner_blanks(a), other_inner_blanks(b)),
+        E::Or(a, b) => E::or(other_inner_blanks(a), other_inner_blanks(b)),
+        E::List(a, b) => E::list(other_inner_blanks(a), other_inner_blanks(b)),
+        E::T(Tst::Name(s)) => E::T(Tst::Name(f(s))),
+        E::T(Tst::IName(s)) => E::T(Tst::IName(f(s))),
+        E::T(Tst::Path(s)) => E::T(Tst::Path(f(s))),
+        E::T(Tst::Pool(s)) => E::T(Tst::Pool(f(s))),
+        E::T(Tst::Xattr(s)) => E::T(Tst::Xattr(f(s))),
+        E::T(Tst::XattrMatch(a, b)) => E::T(Tst::XattrMatch(f(a), f(b))),
+        E::A(Act::FPrint(s)) => E::A(Act::FPrint(f(s))),
+        E::A(Act::Printf(fm)) => E::A(Act::Printf(fm.iter().map(|el| if let FEl::Lit(l) = el { FEl::Lit(f(l)) } else { el.clone() }).collect())),
+        o => o.clone(),
+    }
+}
+
 fn case_json(tree: &E, choices: &[u16]) -> Value {
-    let mut ch = Stream::new(choices, ALL_LAYOUT);
+    let mut ch = Stream::new(choices, ALL_LAYOUT | Cat::Glue as u32);
     json!({"kind": "variant", "tree": term::encode_expr(tree), "choices": choices,
            "canonical": render::canonical(tree), "variant": render::variant(tree, &mut ch)})
 }
